@@ -422,6 +422,13 @@ class DecimalFieldFormat(AbstractFieldFormat):
                         "decimal field must contain thousands separator (%r) only before "
                         "decimal separator (%r): %r " % (self.thousands_separator, self.decimal_separator, value)
                     )
+            elif character_to_process == ".":
+                # A dot that is neither the decimal nor the thousands separator, for example in "1.5" with a
+                # decimal separator of ",".
+                raise errors.FieldValueError(
+                    "decimal field must use %s as decimal separator: %s"
+                    % (_compat.text_repr(self.decimal_separator), _compat.text_repr(value))
+                )
             else:
                 translated_value += character_to_process
 
